@@ -224,6 +224,12 @@ class Inliner:
         f = t.get("func") or {}
         decl = f.get("fn_path") or ""
         none_value = next((v for k, v in self.OPTION_PREDICATES.items() if decl.endswith(k)), None)
+        none_operand = None
+        if none_value is None and decl.endswith("Option::<T>::map_or") and len(t.get("args", [])) == 3 and t.get("target") is not None:
+            # `opt.map_or(default, f)` = match opt { Some(x) => f(x), None => default }
+            none_operand = t["args"][1]
+            t = dict(t, args=[t["args"][0], t["args"][2]])
+            none_value = 0
         if none_value is None or len(t.get("args", [])) != 2 or t.get("target") is None:
             return None
         opt, fn = t["args"]
@@ -255,7 +261,9 @@ class Inliner:
         opt_place = copy.deepcopy(opt["p"])
         some_place = copy.deepcopy(opt["p"])
         some_place["proj"] = list(some_place.get("proj") or []) + [{"downcast": "Some"}, {"f": "0", "i": 0, "v": "Some"}]
-        none_bb = block([{"k": "assign", "p": copy.deepcopy(t["dest"]), "rv": {"k": "use", "op": {"k": "const", "ty": "bool", "bits": none_value, "text": "true" if none_value else "false"}}, "sp": sp}],
+        none_rv = ({"k": "use", "op": copy.deepcopy(none_operand)} if none_operand is not None else
+                   {"k": "use", "op": {"k": "const", "ty": "bool", "bits": none_value, "text": "true" if none_value else "false"}})
+        none_bb = block([{"k": "assign", "p": copy.deepcopy(t["dest"]), "rv": none_rv, "sp": sp}],
                         {"k": "goto", "target": t["target"], "sp": sp})
         take = [{"k": "assign", "p": {"l": x}, "rv": {"k": "use", "op": {"k": opt["k"], "p": some_place}}, "sp": sp}]
         if callee[0] == "fn":
